@@ -55,7 +55,7 @@ def write_path(d, xs, fname="init.lat"):
     with _REAL_OPEN(f"{d}/order.txt", "w") as f:
         f.write("# Cycle: 0, status: ACC, move: ('ld', 0, 0, 0)\n#     Time       Orderp\n")
         for i, x in enumerate(xs):
-            f.write(f"{i:>10d} {float(x):>12.6f}\n")
+            f.write(f"{i:>10d} {float(x):>12.6f} {2.0 * x + 1.0:>12.6f}\n")
     with _REAL_OPEN(f"{d}/energy.txt", "w") as f:
         f.write("# Cycle: 0, status: ACC, move: ('ld', 0, 0, 0)\n#     Time      Potential        Kinetic\n")
         for i, x in enumerate(xs):
@@ -74,16 +74,18 @@ def make_rundir(root, spec):
         up = list(range(0, k + 1))
         write_path(os.path.join(root, f"load/{k}"), up + up[::-1][1:])
     w = spec.get("workers", 1)
+    tis_set = {"maxlength": 2000, "allowmaxlength": False, "zero_momentum": False, "n_jumps": 2}
+    tis_set.update(spec.get("tis_set", {}))
     cfg = {
         "runner": {"workers": w, "wmdrun": ["x"] * w},
         "simulation": {"interfaces": intf, "steps": spec["steps"], "seed": spec.get("seed", 0),
                        "load_dir": "load", "shooting_moves": list(spec["moves"]),
-                       "tis_set": {"maxlength": 2000, "allowmaxlength": False, "zero_momentum": False,
-                                   "n_jumps": 2}},
+                       "tis_set": tis_set},
         "engine": {"class": "LatticeEngine", "module": ENGINE_PY, "timestep": 1.0, "subcycles": 1,
-                   "wall": -4, "temperature": 1.0},
+                   "wall": -4, "temperature": 1.0, "aux": bool(spec.get("keep_traj_fnames"))},
         "orderparameter": {"class": "LatticeOP", "module": ENGINE_PY},
-        "output": {"data_dir": "./", "screen": 0, "pattern": False,
+        "output": {"data_dir": "./", "screen": int(spec.get("screen", 0)), "pattern": False,
+                   "keep_traj_fnames": list(spec.get("keep_traj_fnames", [])),
                    "delete_old": bool(spec.get("delete_old", False)),
                    "delete_old_all": bool(spec.get("delete_old_all", False))},
     }
@@ -97,9 +99,10 @@ def make_rundir(root, spec):
 class HalfFile:
     """file proxy: collects what the code writes; on close writes the first half and dies"""
 
-    def __init__(self, real, tracer, binary):
+    def __init__(self, real, tracer, binary, cut="half"):
         self._real, self._tr, self._bin = real, tracer, binary
         self._buf = []
+        self._cut = cut
 
     def write(self, s):
         self._buf.append(s)
@@ -114,7 +117,13 @@ class HalfFile:
 
     def close(self):
         data = (b"" if self._bin else "").join(self._buf)
-        half = data[: len(data) // 2]
+        nl = b"\n" if self._bin else "\n"
+        if self._cut == "one":                       # a torn piece of one byte
+            half = data[:1]
+        elif self._cut == "line" and data.count(nl) >= 2:   # exactly between the first and the second line
+            half = data[: data.index(nl) + 1]
+        else:
+            half = data[: len(data) // 2]
         self._real.write(half)
         self._real.flush()
         os.fsync(self._real.fileno())
@@ -299,8 +308,8 @@ class Tracer:
         if self.armed == "trunc":
             f.close()
             self.die("trunc")
-        if self.armed == "half":
-            return HalfFile(f, self, "b" in mode)
+        if self.armed in ("half", "one", "line"):
+            return HalfFile(f, self, "b" in mode, self.armed)
         ev = self.last_open_ev
         if ev is not None and self.enabled and not self.masked:
             r = RecFile(f, ev, "b" in mode)
@@ -372,11 +381,17 @@ def install(tracer, completion="fifo"):
         def as_completed(self):
             if not self.l:
                 return None
-            f = self.l.pop(0 if completion == "fifo" else -1)
+            if completion.startswith("rand:"):
+                idx = rnd.randrange(len(self.l))
+            else:
+                idx = 0 if completion == "fifo" else -1
+            f = self.l.pop(idx)
             f.result()
             return f
 
     pending = []
+    import random as _random
+    rnd = _random.Random(completion)
 
     def inflight():
         return [{"ens": [int(e) for e in f.md["ens_nums"]], "paths": [int(p) for p in f.md["pnum_old"]]}
@@ -388,12 +403,26 @@ def install(tracer, completion="fifo"):
     def setup_internal(config):
         md, state = real_internal(config)
         tracer.state = state
+        real_sort = state.sort_trajstate
+        swaps = tracer.info.setdefault("sort_swaps", [])
+
+        def sort_trajstate():
+            before = [int(p) for p in state.live_paths()]
+            r = real_sort()
+            if [int(p) for p in state.live_paths()] != before:
+                swaps.append(int(state.cstep))
+            return r
+
+        state.sort_trajstate = sort_trajstate      # calls the real one; only remembers whether it moved a path
         n = state.n - 1
         tracer.info["loaded"] = {
             "active": [int(p) for p in state.live_paths()],
             "diag": [float(state.state[i][i]) for i in range(n)],
             "locked0": [[list(map(int, a)), list(map(str, b))] for a, b, *_o in state.locked0],
             "cstep": int(state.cstep),
+            # what was read back from order.txt: per live path the order vectors of all frames
+            "orders": {str(int(p.path_number)): [[round(float(x), 6) for x in pp.order] for pp in p.phasepoints]
+                       for p in state._trajs[:n]},
         }
         return md, state
 
@@ -489,6 +518,26 @@ def runjobs(jobs, nproc=16, timeout=120):
     results = [None] * len(jobs)
     running = {}
     nxt = 0
+    try:
+        return _runjobs(jobs, nproc, timeout, results, running)
+    finally:
+        # whatever happened (time-out alarm of the framework, exception): no child survives, all are reaped
+        for pid in list(running):
+            try:
+                os.killpg(pid, signal.SIGKILL)
+            except (ProcessLookupError, PermissionError):
+                try:
+                    os.kill(pid, signal.SIGKILL)
+                except ProcessLookupError:
+                    pass
+            try:
+                os.waitpid(pid, 0)
+            except ChildProcessError:
+                pass
+
+
+def _runjobs(jobs, nproc, timeout, results, running):
+    nxt = 0
     while nxt < len(jobs) or running:
         while nxt < len(jobs) and len(running) < nproc:
             job = jobs[nxt]
@@ -501,6 +550,7 @@ def runjobs(jobs, nproc=16, timeout=120):
             pid = os.fork()
             if pid == 0:
                 try:
+                    os.setsid()            # own session/group: killpg reaches everything a child may start
                     signal.alarm(0)
                     signal.signal(signal.SIGALRM, signal.SIG_DFL)
                     devnull = os.open(os.devnull, os.O_WRONLY)
@@ -524,7 +574,10 @@ def runjobs(jobs, nproc=16, timeout=120):
             r, status = os.waitpid(pid, os.WNOHANG)
             if r == 0:
                 if time.time() - t0 > timeout:
-                    os.kill(pid, signal.SIGKILL)
+                    try:
+                        os.killpg(pid, signal.SIGKILL)
+                    except (ProcessLookupError, PermissionError):
+                        os.kill(pid, signal.SIGKILL)
                     os.waitpid(pid, 0)
                     results[idx] = ("timeout", None)
                     del running[pid]
